@@ -275,8 +275,7 @@ def composition(ctx, rule="R04.3"):
     # the Hankel settings of a model are its own copy of the module default (a shared dict would leak settings between models)
     from .. import alias
 
-    an = alias.Analyzer(prog)
-    an.run()
+    an = alias.analyzed(prog)
     shared = []
     for fq, sm in an.summ.items():
         for attr, labs in sm.store.items():
